@@ -18,6 +18,23 @@ SYNTAX = '#include "stddef.gdh"\ntable(glyph) c1 = glyphid(3..6) c4 = = ; endtab
 SEMANTIC = '#include "stddef.gdh"\ntable(glyph) c1 = glyphid(3..6); endtable;\ntable(sub) c1 > cUndefined; endtable;\n'
 PPERR = '#include "stddef.gdh"\n#include "no_such_file.gdh"\ntable(glyph) c1 = glyphid(3..6); c4 = glyphid(7); endtable;\ntable(sub) c1 > c4; endtable;\n'
 
+# accepted programs that draw a warning early (a global set twice: 1506) and use a feature whose checks run later:
+# every legal justification level, ligature components, mirroring, a collision pass
+def _rich_warn(glyphs, rules):
+    return ('#include "stddef.gdh"\nScriptDirection = HORIZONTAL_LEFT_TO_RIGHT;\nScriptDirection = HORIZONTAL_LEFT_TO_RIGHT;\n'
+            'table(glyph) c1 = glyphid(3..6); c4 = glyphid(7); ' + glyphs + ' endtable;\n' + rules)
+
+
+RICH_WARN = {
+    "justify_levels": _rich_warn("cJ0 = glyphid(8) {justify.0.stretch = 400m; justify.0.shrink = 100m; justify.0.weight = 4}; cJ1 = glyphid(9) {justify.1.stretch = 60m}; "
+                                 "cJ2 = glyphid(10) {justify.2.stretch = 30m}; cJ3 = glyphid(11) {justify.3.stretch = 10m; justify.3.step = 5m};",
+                                 "table(pos) c1 {kern.x = 20m} / c4 _; endtable;\n"),
+    "ligature_components": _rich_warn("cL = glyphid(8) {component.a = box(0, 0, 200m, 400m); component.b = box(200m, 0, 400m, 400m)};",
+                                      "table(sub) c1 c4 > cL:(1 2) {component {a.ref = @1; b.ref = @2}} _; endtable;\n"),
+    "bidi_mirroring": _rich_warn("cN = glyphid(9); cM = glyphid(8) {mirror.glyph = cN; mirror.isEncoded = 1};", "Bidi = true;\ntable(sub) c1 > c4; endtable;\n"),
+    "collision_pass": _rich_warn("cC = glyphid(8..10) {collision.flags = 1};", "table(pos) pass(1) {CollisionFix = 2} c1 {shift.x = 5m}; endpass; endtable;\n"),
+}
+
 FIELDS = ["sameInOut", "gdlOpens", "encodingOk", "tmpOk", "ppOk", "parseOk", "postParseOk", "fontOk", "optsOk",
           "preCompileOk", "dbgFiles", "dbgXml", "outOpens", "outWrites", "errFileOpens", "fsmOk"]
 
@@ -39,6 +56,9 @@ def scenarios():
     add("ok_warnings", {}, gdl=WARN)
     add("ok_quiet_wall", {}, gdl=WARN, opts=["-wall"])
     add("ok_ignore_warning", {}, gdl=WARN, opts=["-w3529", "-w2534"])
+    for k in sorted(RICH_WARN):
+        add("ok_early_warning_" + k, {}, gdl=RICH_WARN[k])
+    add("ok_early_warning_ignored_justify_levels", {}, gdl=RICH_WARN["justify_levels"], opts=["-w1506"])
     add("ok_dbgxml", {"dbgXml": 1}, opts=["-d"])
     add("ok_dbgall", {"dbgFiles": 1, "dbgXml": 1}, opts=["-D"])
     add("ok_errfile_opt", {}, errfile="custom_err.txt")
